@@ -6,15 +6,18 @@ sys.path.insert(0, os.path.join(V, "bin"))
 from seeded_table import SEEDED
 ids = sys.argv[1:] or sorted(SEEDED)
 for i in ids:
-    prop, pkg, run, checks, race, what = SEEDED[i]
+    prop, pkg, run, checks, race, what = SEEDED[i][:6]
+    base = SEEDED[i][6] if len(SEEDED[i]) > 6 else "HEAD"
     d = os.path.join(V, "seeded", i)
     cmd = [os.path.join(V, "bin", "eval_seeded.py"), d, "--props", ",".join(checks), "--demo-pkg", pkg, "--demo-file", os.path.join(d, "demo_test.go.txt"), "--demo-run", run]
     if race:
         cmd.append("--demo-race")
+    if base != "HEAD":
+        cmd += ["--base", base]
     subprocess.run(cmd, stdout=subprocess.DEVNULL)
     ev = json.load(open(os.path.join(d, "eval.json")))
     meta = {
-        "id": i, "breaks_property": prop, "what_and_what_it_needs": what,
+        "id": i, "breaks_property": prop, "what_and_what_it_needs": what, "applies_to_repo_revision": base,
         "files": {"patch": "patch.diff", "demonstration": "demo_test.go.txt (copy as *_test.go into package dir '%s', go test -run '%s'%s)" % (pkg, run, " -race" if race else ""), "author_notes": "notes.md"},
         "confirmed": {k: ev.get(k) for k in ("patch_applies", "compiles", "suite_passes_with_change", "demo_unchanged_tree", "demo_with_change")},
         "what_was_run": ["git worktree of /repo HEAD + git apply patch.diff", "go build ./...", "go test -vet=off -count=1 ./... (private network namespace)", ev.get("demo_cmd", ""),
